@@ -24,7 +24,7 @@ int MPI_Comm_size(MPI_Comm,int*); int MPI_Comm_rank(MPI_Comm,int*); int MPI_Comm
 int MPI_Comm_split(MPI_Comm,int,int,MPI_Comm*); int MPI_Comm_split_type(MPI_Comm,int,int,MPI_Info,MPI_Comm*);
 int MPI_Allgather(const void*,int,MPI_Datatype,void*,int,MPI_Datatype,MPI_Comm);
 int MPI_Allreduce(const void*,void*,int,MPI_Datatype,MPI_Op,MPI_Comm);
-int MPI_Iallreduce(const void*,void*,int,MPI_Datatype,MPI_Op,MPI_Comm,MPI_Request*);
+int MPI_Iallreduce(const void*,void*,int,MPI_Datatype,MPI_Op,MPI_Comm,MPI_Request*); int MPI_Ibarrier(MPI_Comm, MPI_Request*);
 int MPI_Exscan(const void*,void*,int,MPI_Datatype,MPI_Op,MPI_Comm); int MPI_Scan(const void*,void*,int,MPI_Datatype,MPI_Op,MPI_Comm);
 int MPI_Bcast(void*,int,MPI_Datatype,int,MPI_Comm); int MPI_Barrier(MPI_Comm);
 int MPI_Send(const void*,int,MPI_Datatype,int,int,MPI_Comm); int MPI_Recv(void*,int,MPI_Datatype,int,int,MPI_Comm,MPI_Status*);
